@@ -34,7 +34,7 @@ from fractions import Fraction
 import vlib
 
 PROPERTY = "C11"
-F21_SIG = "F21-landmark-target-dimension-gt-landmarks"
+F21_SIG = "F21-target-dimension-rank"
 
 TRUSTED = [
     "hand-written model Landmark_Model.v tied by differential testing (not a proof about the C++ text)",
@@ -159,7 +159,8 @@ def run_impl(ctx, exe, lines, timeout=600):
     results = [None] * len(lines)
     start = 0
     while start < len(lines):
-        r = ctx.run(exe, "\n".join(lines[start:]) + "\n", timeout=timeout)
+        r = ctx.run(exe, "\n".join(lines[start:]) + "\n", timeout=timeout,
+                    env={"OMP_NUM_THREADS": "2", "OMP_WAIT_POLICY": "passive"})
         cur = None
         for line in r.out.splitlines():
             if line.startswith("C "):
@@ -226,11 +227,11 @@ def run_model(ctx, mexe, lines, timeout=900):
     return out
 
 
-def coq_counts(ctx, pairs):
-    """n_landmarks_nat N ratio, bit-exactly, by vm_compute inside coqc. pairs: [(N, ratio float)].
-    Returns list of int or None (undefined)."""
+def coq_counts(ctx, pairs, dims=None):
+    """n_landmarks_nat N ratio (and, with dims, lmds_validate N d ratio), bit-exactly, by vm_compute inside
+    coqc.  pairs: [(N, ratio float)].  Returns list of int or None (undefined) [, list of bool]."""
     if not pairs:
-        return []
+        return [] if dims is None else ([], [])
     items = []
     for n, ratio in pairs:
         num, den = abs(ratio).as_integer_ratio()
@@ -242,6 +243,10 @@ def coq_counts(ctx, pairs):
     src = ("From Coq Require Import Floats ZArith List.\nFrom TK Require Import Landmark_Float.\n"
            "Import ListNotations.\nDefinition cases : list (nat * float) := [\n" + ";\n".join(items) + "].\n"
            "Eval vm_compute in (map (fun p => n_landmarks_nat (fst p) (snd p)) cases).\n")
+    if dims is not None:
+        src += ("Definition dims : list nat := [" + "; ".join(str(d) for d in dims) + "].\n"
+                "Eval vm_compute in (map (fun p => lmds_validate (fst (fst p)) (snd p) (snd (fst p))) "
+                "(combine cases dims)).\n")
     path = os.path.join(ctx.build, "C11_float_cases.v")
     open(path, "w").write(src)
     try:
@@ -252,13 +257,17 @@ def coq_counts(ctx, pairs):
         raise vlib.BuildError("coqc on the PrimFloat cases timed out")
     if p.returncode != 0:
         raise vlib.BuildError("PrimFloat evaluation failed: " + p.stderr[-1500:])
-    body = p.stdout[p.stdout.find("= [") + 2:]
-    body = body[: body.rfind("]") + 1]
-    vals = re.findall(r"Some\s+(\d+)|(None)", body)
+    parts = p.stdout.split("     : list")
+    vals = re.findall(r"Some\s+(\d+)|(None)", parts[0])
     res = [int(a) if a else None for a, b in vals]
     if len(res) != len(pairs):
         raise vlib.BuildError("PrimFloat evaluation: %d results for %d cases" % (len(res), len(pairs)))
-    return res
+    if dims is None:
+        return res
+    flags = [w == "true" for w in re.findall(r"\b(true|false)\b", parts[1] if len(parts) > 1 else "")]
+    if len(flags) != len(pairs):
+        raise vlib.BuildError("PrimFloat evaluation: %d validate results for %d cases" % (len(flags), len(pairs)))
+    return res, flags
 
 
 # ----------------------------------------------------------------------------- generators
@@ -354,7 +363,7 @@ def gen_E(rng):
     lo = max(3.0 / n, (r + 2) / n)
     ratio = rng.choice([rng.uniform(lo, 1.0), rng.uniform(lo, min(1.0, lo + 0.3)), 0.5 if 0.5 >= lo else lo])
     return {"mode": "E", "method": "lmds", "N": n, "d": r, "ratio": ratio, "pts": pts,
-            "seeds": [rng.randrange(1 << 30) for _ in range(4)]}
+            "seeds": [rng.randrange(1 << 30) for _ in range(3)]}
 
 
 def gen_ratio_one(rng, method):
@@ -738,6 +747,10 @@ def eval_T(ctx, exe, mexe, cases, st):
 def eval_I(ctx, exe, mexe, cases, st):
     if not cases:
         return
+    fexe = getattr(ctx, "fib_exe", None)
+    if fexe and exe != fexe:
+        # the same cases through the Fibonacci-heap build of compute_shortest_distances_matrix
+        eval_I(ctx, fexe, mexe, [dict(c, heap="fibonacci") for c in cases], st)
     impl = run_impl(ctx, exe, [impl_line(c) for c in cases])
     lines, idx = [], []
     for c, res in zip(cases, impl):
@@ -996,35 +1009,79 @@ def eval_E1(ctx, exe, mexe, cases, st):
                           "counterpart modulo column signs (simple, positive leading spectrum): %s" % po)
 
 
-def probe_F21(ctx, exe, st):
-    """target_dimension > #landmarks passes validation (open item F21, decided by C01)"""
+def f21_case():
     pts = [[i * i % 7, i, (3 * i) % 5, i % 2, (i * i * i) % 11, i % 3] for i in range(10)]
-    c = api("lmds", 10, 5, 0.3, 7, 0, euclid_dist(pts))
-    res = run_impl(ctx, exe, [impl_line(c)], timeout=120)[0]
-    st.evals += 1
-    st.count("F21_probe")
-    case = {"mode": "F21", "N": 10, "d": 5, "ratio": 0.3, "seed": 7, "pts": pts}
-    if res["exc"] in ("wrong_parameter", "wrong_parameter_type"):
-        ctx.note("F21 probe: target_dimension 5 > 3 landmarks is rejected with wrong_parameter_error (repaired)")
-        return
-    what = ("aborts: " + str(res["sanitizer"])[:300]) if res["crashed"] else (
-        "exception " + res["exc"] if res["exc"] else "returns an embedding built from columns outside the "
-        "3-column eigenvector matrix")
-    why = ("Landmark MDS with N=10, landmark_ratio=0.3 (3 landmarks), target_dimension=5 passes validation and "
-           "then " + what + "; model: lmds_bounds_refuted (rightCols(5) of a 3-column matrix)")
-    known = any(e.get("kind") == "finding" and e.get("signature") == F21_SIG for e in ctx._known_db)
-    if known:
-        ctx.violation(case, why, signature=F21_SIG)
+    return {"mode": "V", "method": "lmds", "N": 10, "d": 5, "ratio": 0.3, "seed": 7, "pts": pts}
+
+
+def gen_V(rng):
+    """validation decisions around the boundaries: ratio at / just below 3/N, at / just above 1,
+    target_dimension at count - 1, count, count + 1, N - 1, N"""
+    n = rng.randint(5, 14)
+    mode = rng.random()
+    if mode < 0.15:
+        ratio = math.nextafter(3.0 / n, 0.0)
+    elif mode < 0.3:
+        ratio = 3.0 / n
+    elif mode < 0.4:
+        ratio = rng.choice([1.0, math.nextafter(1.0, 2.0)])
     else:
-        ctx.note("OPEN F21 (owned by C01, no known_findings entry for C11 yet, not counted as a verdict): " + why)
+        ratio = rng.uniform(3.0 / n, 1.0)
+    count = int(n * ratio)
+    d = max(0, rng.choice([count - 1, count, count, count + 1, count + 1, count + 2, n - 1, n, 1]))
+    pts = [[rng.randint(-9, 9) for _ in range(6)] for _ in range(n)]
+    return {"mode": "V", "method": rng.choice(["lmds", "lmds", "lisomap"]), "N": n, "d": d, "ratio": ratio,
+            "seed": rng.randrange(1 << 30), "pts": pts}
+
+
+def eval_V(ctx, exe, mexe, cases, st):
+    """accept / reject of the constructor + validate() against Landmark_Float.lmds_validate (Coq primitive
+    floats); an accepted request must run to an N x d embedding, a rejected one must raise
+    wrong_parameter_error before anything is computed"""
+    if not cases:
+        return
+    lines = [impl_line(api(c["method"], c["N"], c["d"], c["ratio"], c["seed"], min(c["N"] - 1, 4),
+                           euclid_dist(c["pts"]))) for c in cases]
+    # one process per case group is enough: a crash is attributed to its case by run_impl
+    impl = run_impl(ctx, exe, lines, timeout=300)
+    counts, flags = coq_counts(ctx, [(c["N"], c["ratio"]) for c in cases], [c["d"] for c in cases])
+    for c, res, cq, ok in zip(cases, impl, counts, flags):
+        st.evals += 1
+        st.count("V_accept" if ok else "V_reject")
+        rc = jsonable(c)
+        n, d = c["N"], c["d"]
+        count = int(n * c["ratio"])
+        rejected = res["exc"] in ("wrong_parameter", "wrong_parameter_type") and not res["crashed"]
+        if not rejected and d > count and 3.0 / n <= c["ratio"] <= 1.0:
+            what = ("aborts: " + str(res["sanitizer"])[:300]) if res["crashed"] else (
+                "raises " + res["exc"] if res["exc"] else "returns an embedding built from columns outside the "
+                "%d-column eigenvector matrix" % count)
+            ctx.violation(rc, "%s with N=%d, landmark_ratio=%r (%d landmarks), target_dimension=%d is not rejected "
+                          "by validation and then %s (model: lmds_bounds_refuted; the landmarks cannot be embedded "
+                          "as MDS would embed that subset: MDS itself needs target_dimension < #samples)" % (
+                              c["method"], n, c["ratio"], count, d, what), signature=F21_SIG)
+            continue
+        if res["crashed"]:
+            ctx.violation(rc, "%s N=%d d=%d ratio=%r: %s" % (c["method"], n, d, c["ratio"], crash_why(res)))
+            continue
+        if ok != (not rejected):
+            ctx.mismatch(rc, "validation decision: model lmds_validate says %s, implementation %s (%s)" % (
+                "accept" if ok else "reject", "rejects" if rejected else "accepts", res["exc"]))
+            continue
+        if ok:
+            _, Y, problem = parse_api(res, n, d)
+            if problem and not problem.startswith("non-finite") and c["method"] == "lmds":
+                ctx.violation(rc, "accepted request does not produce an N x d embedding: " + problem)
+            st.nontrivial(["V", n, d, c["ratio"], c["method"]])
 
 
 # ----------------------------------------------------------------------------- driver
 def budgets(ctx, scale=1):
     q = ctx.quick
-    return {"S": (60 if q else 400) * scale, "R": (150 if q else 1500) * scale, "T": (60 if q else 500) * scale,
-            "I": (24 if q else 200) * scale, "E": (16 if q else 120) * scale,
-            "E1_lmds": (10 if q else 80) * scale, "E1_lisomap": (8 if q else 60) * scale}
+    return {"S": (60 if q else 400) * scale, "R": (100 if q else 1500) * scale, "T": (48 if q else 500) * scale,
+            "I": (16 if q else 200) * scale, "E": (12 if q else 120) * scale,
+            "E1_lmds": (10 if q else 80) * scale, "E1_lisomap": (8 if q else 60) * scale,
+            "V": (30 if q else 300) * scale}
 
 
 def generate(ctx, rng, b):
@@ -1032,7 +1089,8 @@ def generate(ctx, rng, b):
              "T": [gen_T(rng) for _ in range(b["T"])], "I": [gen_I(rng) for _ in range(b["I"])],
              "E": [gen_E(rng) for _ in range(b["E"])],
              "E1": [gen_ratio_one(rng, "lmds") for _ in range(b["E1_lmds"])] +
-                   [gen_ratio_one(rng, "lisomap") for _ in range(b["E1_lisomap"])]}
+                   [gen_ratio_one(rng, "lisomap") for _ in range(b["E1_lisomap"])],
+             "V": [f21_case()] + [gen_V(rng) for _ in range(b["V"])]}
     # boundary cases aimed at the case splits of the proofs
     cases["S"] += [{"mode": "S", "N": 47, "ratio": 3.0 / 47, "reps": 2, "seed": 1},
                    {"mode": "S", "N": 3, "ratio": 1.0, "reps": 2, "seed": 2},
@@ -1047,7 +1105,8 @@ def generate(ctx, rng, b):
 
 
 def evaluate_all(ctx, exe, mexe, cases, st):
-    for key, fn in (("S", eval_S), ("R", eval_R), ("T", eval_T), ("I", eval_I), ("E", eval_E), ("E1", eval_E1)):
+    for key, fn in (("S", eval_S), ("R", eval_R), ("T", eval_T), ("I", eval_I), ("E", eval_E), ("E1", eval_E1),
+                    ("V", eval_V)):
         t0 = ctx.elapsed()
         fn(ctx, exe, mexe, cases.get(key, []), st)
         st.times[key] = round(st.times.get(key, 0) + ctx.elapsed() - t0, 1)
@@ -1057,7 +1116,7 @@ def corpus_cases(ctx):
     out = {}
     for name, c in ctx.corpus():
         c = revive(c.get("case", c))
-        key = {"EAPI": None, "F21": None}.get(c.get("mode"), c.get("mode"))
+        key = c.get("mode") if c.get("mode") in ("S", "R", "T", "I", "E", "E1", "V") else None
         if key:
             out.setdefault(key, []).append(c)
     return out
@@ -1073,8 +1132,17 @@ def revive(c):
 
 
 def build(ctx):
-    exe = ctx.cpp("harness/c11.cpp", extra=["-O0", "-g0"])
-    mexe = ctx.extract()
+    """harness (default heap), harness with -DTAPKEE_USE_FIBONACCI_HEAP (the Dijkstra variant that uses the
+    frontier flags f[], stream I only) and the extracted model, built concurrently.  -O0 -g0 and the reduced
+    include set of harness/c11.cpp keep a cold build near 40 s of CPU per binary."""
+    from concurrent.futures import ThreadPoolExecutor
+    with ThreadPoolExecutor(max_workers=3) as pool:
+        f1 = pool.submit(ctx.cpp, "harness/c11.cpp", extra=["-O0", "-g0"])
+        f2 = pool.submit(ctx.cpp, "harness/c11.cpp", name="c11_fib", defines=["TAPKEE_USE_FIBONACCI_HEAP"],
+                         extra=["-O0", "-g0"])
+        f3 = pool.submit(ctx.extract)
+        exe, fexe, mexe = f1.result(), f2.result(), f3.result()
+    ctx.fib_exe = fexe
     return exe, mexe
 
 
@@ -1095,9 +1163,8 @@ def run(ctx):
         # search phase: larger budget, fresh cases; every evaluator applies the spec to the implementation's
         # own output first, so a genuine violation turns into a replayable input
         evaluate_all(ctx, exe, mexe, generate(ctx, rng, budgets(ctx, 4)), st)
-    probe_F21(ctx, exe, st)
     samples = []
-    for key in ("S", "R", "T", "I", "E", "E1"):
+    for key in ("S", "R", "T", "I", "E", "E1", "V"):
         for c in cases.get(key, [])[:1]:
             s = jsonable(c)
             if "dist" in s:
@@ -1109,7 +1176,7 @@ def run(ctx):
              "+- 1 ulp, 1), R (triangulate alone, exact dyadic operands), T (Landmark-MDS embed body through the "
              "internal routines; integer metrics line / L1 lattice / asymmetric table; L a power of two), I (Landmark "
              "Isomap dense body, distinct integer weights), E (public API, Euclidean integer configurations of "
-             "intrinsic dimension d = target_dimension in R^D, 4 seeds each), E1 (ratio = 1 against MDS / Isomap); "
+             "intrinsic dimension d = target_dimension in R^D, 3 seeds each), E1 (ratio = 1 against MDS / Isomap); "
              "non-trivial = at least one non-landmark row (S: 3 <= count < N; E: spanning landmark subset, "
              "well-conditioned; E1: spectrum guard passed); distinct by hash of the case.  Counts are fixed by the "
              "tier, not by time.",
@@ -1130,16 +1197,7 @@ def replay(ctx, case):
     st = Stats()
     c = revive(case)
     mode = c.get("mode")
-    if mode == "F21":
-        probe_F21(ctx, exe, st)
-        res = run_impl(ctx, exe, [impl_line(api("lmds", c["N"], c["d"], c["ratio"], c["seed"], 0,
-                                                euclid_dist(c["pts"])))], timeout=120)[0]
-        bad = res["crashed"] or res["exc"] not in ("wrong_parameter", "wrong_parameter_type")
-        print("replay: F21 probe -> %s" % (res["exc"] or ("crash: " + str(res["sanitizer"])[:300] if res["crashed"]
-                                                           else "embedding returned")))
-        print("replay: property C11 %s on this input" % ("FAILS" if bad else "holds"))
-        return 1 if bad else 0
-    key = {"S": "S", "R": "R", "T": "T", "I": "I", "E": "E", "E1": "E1"}.get(mode)
+    key = {"S": "S", "R": "R", "T": "T", "I": "I", "E": "E", "E1": "E1", "V": "V"}.get(mode)
     if key is None:
         print("replay: unknown case mode %r" % mode)
         return 3
